@@ -36,6 +36,7 @@ CONSTANTS
   LazyApply = FALSE
   AllowCompact = TRUE
   ProposeAnywhere = FALSE
+  TargetPreds = {}
 CONSTRAINT Bound
 INVARIANT Judge
 INVARIANT Replay
